@@ -31,18 +31,20 @@ func init() {
 	mon.Register(&mon.Property{
 		ID:    "C06",
 		Level: "exploration",
-		Rule: "seeded Swagger 2.0 descriptions with one operation per consumes-list shape (empty, concrete types, type/*, */*, one or several entries with parameters, a bare type next to its parameterised spelling, mixes; declared per operation or at spec level; four operations in five declare a body parameter, one in five declares no parameter at all) x all 7 methods, " +
-			"API default media type present (plain or with parameters)/absent, Accept header absent / acceptable / admitting nothing the operation produces, tagged consumers registered API-wide for (most of) a dozen concrete types and optionally for wildcard keys; requests with Content-Type drawn from: admitted (exactly / through the default / through an entry with parameters / through type/* / through */*), " +
+		Rule: "seeded Swagger 2.0 descriptions with one operation per consumes-list shape (empty, concrete types, type/*, */*, one or several entries with parameters, a bare type next to its parameterised spelling, mixes; declared per operation or at spec level, in one description in ten at both levels with different lists; one request in fifty carries a second Content-Type line; four operations in five declare a body parameter, one in five declares no parameter at all; one operation in seven declares a formData parameter instead and mostly consumes form media types) x all 7 methods, " +
+			"API default media type present (plain or with parameters)/absent, Accept header absent / acceptable / admitting nothing the operation produces, tagged consumers registered API-wide for (most of) 14 concrete types (the two form media types among them) and optionally for wildcard keys; requests with Content-Type drawn from: admitted (exactly / through the default / through an entry with parameters / through type/* / through */*), " +
 			"non-admitted pool types, near misses of admitted types, literal wildcard types, absent, empty, malformed and grey-zone values, each spelled plain / with parameters / with OWS around ';' / in mixed letter case; body signalled by Content-Length (with and without the header line), " +
 			"by ContentLength=-1 (chunked), by a real Content-Length or chunked request over a loopback server, or absent (no body, Content-Length: 0, empty chunked stream). Every case is executed through both entry points (untyped pipeline via RoutesHandler, and Context.BindValidRequest with a RequestBinder that decodes with route.Consumer). " +
 			"oracle written from the statement: own RFC 7231 media-type classifier and own admission function. non-trivial = the request carries a body, or is body-less but carries a Content-Type that the gate would refuse; distinct by (consumes shape, default present, admission class, header kind+spelling, body signalling, method)",
 		Assumptions: []string{
-			"consumes entries and the API default are lower case; entries with parameters are spelled 'type/subtype;name=value' or 'type/subtype; name=value' (no whitespace before ';'); wildcard entries carry no parameters",
+			"consumes entries and the API default are lower case; entries with parameters are spelled 'type/subtype;name=value' or 'type/subtype; name=value' (whitespace before ';' - legal OWS of RFC 7231 3.1.1.1 - is generated once accept.JudgeOWSBeforeSemicolon is set: TRIAGE-PENDING C06-2); wildcard entries carry no parameters",
 			"a body with no Content-Type header is judged as application/octet-stream (runtime.DefaultMime, RFC 7231 3.1.1.5); an empty header value may be treated as absent or as unparsable",
 			"header values whose type/subtype part is a valid token pair but whose parameter section is irregular (trailing ';', parameter without value, duplicate names, RFC 2231 continuations, quoted-pairs, '{' '}' in the type) are a grey zone: either 400 or the reading 'media type = part before the first ;' is accepted; only safety (no consumer/handler for a non-admitted type, right consumer) and agreement of the entry points are judged there",
 			"when no consumer is registered API-wide under the exact media type of an admitted request, the status is not judged (the statement presupposes a registered consumer); only 'no consumer other than a matching wildcard-key one ran' and agreement are judged",
 			"body presence is what the request signals: ContentLength>0, or unknown length (-1) with at least one readable byte; Content-Length: 0 and an empty chunked stream are body-less",
 			"every operation produces application/json; an Accept header that admits nothing concerns the gate only in that it must not replace a due 415/400: a body-less or admitted request carrying such a header may be answered 406 with nothing run (the 406 clause itself is C07's)",
+			"an operation with a formData parameter is gated like any other: a non-admitted or malformed type is refused 415/400 with nothing run, through both entry points; for admitted types only 'no foreign consumer ran' is judged (the reflective formData binder has its own opinion on the request's type and a multipart body needs a boundary), except admitted application/x-www-form-urlencoded bodies, which both entry points must serve; a body-less request to such an operation is judged for 'no consumer ran' only",
+			"a spec-level consumes list declared next to an operation's own list is overridden by it (Swagger 2.0); a request with two Content-Type field lines is judged for safety only: refused with nothing run when both lines name non-admitted types, a consumer that runs is the one of an admitted type that one of the lines names, the entry points agree",
 			"an operation that declares no body parameter is gated like any other (the statement quantifies over requests that carry a body); whether its body is decoded at all is not judged, only that nothing but the consumer of its media type decodes it",
 		},
 		MinNontrivial: 300,
@@ -73,7 +75,17 @@ type Case struct {
 	Accept    mon.Q `json:"accept,omitempty"`
 	// NoBodyParam: the operation declares no parameter at all (no "in: body" parameter)
 	NoBodyParam bool `json:"no_body_param,omitempty"`
+	// FormParam: the operation declares one optional formData parameter (and no body parameter)
+	FormParam bool `json:"form_param,omitempty"`
+	// SpecConsumes: a spec-level consumes list declared NEXT TO the operation's own list (which overrides it:
+	// Swagger 2.0 "consumes" of an operation "overrides the global definition")
+	SpecConsumes []string `json:"spec_consumes,omitempty"`
+	// HasCT2/CT2: a second Content-Type field line
+	HasCT2 bool  `json:"has_second_ct,omitempty"`
+	CT2    mon.Q `json:"second_ct,omitempty"`
 }
+
+const urlencoded, multipart = "application/x-www-form-urlencoded", "multipart/form-data"
 
 // acceptClass tells whether the Accept header admits the one type every operation produces:
 // absent | acceptable | unacceptable | unjudged (outside the grammar C07's reference is defined on).
@@ -97,6 +109,8 @@ var concretePool = []string{
 	"application/json", "application/xml", "application/x-yaml", "application/vnd.api+json",
 	"application/octet-stream", "application/pdf", "text/plain", "text/html", "text/csv",
 	"image/png", "image/jpeg", "audio/mpeg",
+	// the two form media types: for them the gate is the only enforcement (the formData binder takes either)
+	urlencoded, multipart,
 }
 
 var wildcardKeys = []string{"*/*", "application/*", "text/*", "image/*"}
@@ -476,11 +490,12 @@ func (b *recBinder) BindRequest(r *http.Request, route *middleware.MatchedRoute)
 type opSpec struct {
 	consumes []string
 	noParam  bool // the operation declares no parameter (no body parameter)
+	form     bool // the operation declares an optional formData parameter instead of the body parameter
 }
 
 // buildEnv creates a description with operations /o<i> (all seven methods each), op i consuming
 // ops[i].consumes (or, with global, the spec-level list ops[0].consumes and no per-operation list).
-func buildEnv(ops []opSpec, global bool, def string, registered []string) (*env, error) {
+func buildEnv(ops []opSpec, global bool, def string, registered []string, specConsumes ...string) (*env, error) {
 	e := &env{nops: len(ops)}
 	paths := map[string]interface{}{}
 	for i, op := range ops {
@@ -490,7 +505,9 @@ func buildEnv(ops []opSpec, global bool, def string, registered []string) (*env,
 				"operationId": fmt.Sprintf("o%d%s", i, strings.ToLower(mth)),
 				"responses":   map[string]interface{}{"200": map[string]interface{}{"description": "ok"}},
 			}
-			if !op.noParam {
+			if op.form {
+				o["parameters"] = []interface{}{map[string]interface{}{"name": "f", "in": "formData", "type": "string"}}
+			} else if !op.noParam {
 				o["parameters"] = []interface{}{map[string]interface{}{
 					"name": "body", "in": "body", "schema": map[string]interface{}{"type": "object"},
 				}}
@@ -511,6 +528,8 @@ func buildEnv(ops []opSpec, global bool, def string, registered []string) (*env,
 	}
 	if global && len(ops) > 0 && len(ops[0].consumes) > 0 {
 		doc["consumes"] = ops[0].consumes
+	} else if !global && len(specConsumes) > 0 {
+		doc["consumes"] = specConsumes // operations with a list of their own override it
 	}
 	raw, err := json.Marshal(doc)
 	if err != nil {
@@ -635,6 +654,9 @@ func memRequest(c *Case, path string) *http.Request {
 	}
 	if c.HasCT {
 		r.Header["Content-Type"] = []string{string(c.CT)}
+		if c.HasCT2 {
+			r.Header["Content-Type"] = []string{string(c.CT), string(c.CT2)}
+		}
 	}
 	if c.HasAccept {
 		r.Header["Accept"] = []string{string(c.Accept)}
@@ -685,6 +707,9 @@ func (e *env) exec(c *Case, opIdx int, entry int) *observation {
 		}
 		if c.HasCT {
 			req.Header["Content-Type"] = []string{string(c.CT)}
+			if c.HasCT2 {
+				req.Header["Content-Type"] = []string{string(c.CT), string(c.CT2)}
+			}
 		}
 		if c.HasAccept {
 			req.Header["Accept"] = []string{string(c.Accept)}
@@ -765,13 +790,40 @@ func (e *expectation) refuseFeature(c *Case) string {
 // extraFeature names the input features beyond the original workload (old signatures stay as they were).
 func (e *expectation) extraFeature(c *Case) string {
 	f := ""
+	if owsEntryFor(c, e.mt) {
+		f += "+entry-with-ows-before-semicolon"
+	}
 	if e.notAcceptable() {
 		f += "+unacceptable-accept"
 	}
 	if c.NoBodyParam {
 		f += "+operation-without-body-parameter"
 	}
+	if c.FormParam {
+		f += "+formdata-operation"
+	}
+	if len(c.SpecConsumes) > 0 {
+		f += "+spec-level-list-next-to-the-operation's"
+	}
+	if c.HasCT && c.HasCT2 {
+		f += "+second-content-type-line"
+	}
 	return f
+}
+
+// owsEntryFor: the consumes list (or the API default) names mt with an entry that has whitespace before its ';'.
+func owsEntryFor(c *Case, mt string) bool {
+	if mt == "" {
+		return false
+	}
+	for _, e := range append(append([]string{}, c.Consumes...), c.Default) {
+		if i := strings.IndexByte(e, ';'); i > 0 && (e[i-1] == ' ' || e[i-1] == '\t') {
+			if b, _ := stripEntry(e); b == mt {
+				return true
+			}
+		}
+	}
+	return false
 }
 
 func sameBytes(seen []mon.Q, payload mon.Q) bool {
@@ -801,6 +853,48 @@ func judgeEntry(c *Case, e *expectation, o *observation) []finding {
 		return fs
 	}
 	ran := len(o.Consumers) > 0
+	if c.HasCT && c.HasCT2 {
+		// two Content-Type field lines: which of them is "its media type" is not the statement's business. Judged: a
+		// body whose lines BOTH name a non-admitted (or unparsable) type is refused with nothing run; a consumer that
+		// runs is the one registered for an admitted type one of the lines names; (and the entry points agree)
+		c2 := *c
+		c2.CT, c2.HasCT2 = c.CT2, false
+		e2 := expect(&c2)
+		refused := func(v string) bool { return v == "refuse415" || v == "refuse400" }
+		feat := "both-lines-non-admitted" + e.extraFeature(c)
+		if e.hasBody && refused(e.verdict) && refused(e2.verdict) {
+			if ran {
+				add("consumer-ran-for-non-admitted", feat, "consumers %v ran for Content-Type lines %q, %q", o.Consumers, string(c.CT), string(c.CT2))
+			}
+			if o.Handler > 0 {
+				add("handler-ran-for-non-admitted", feat, "handler ran for Content-Type lines %q, %q (status %d)", string(c.CT), string(c.CT2), o.Status)
+			}
+			if o.Status != 415 && o.Status != 400 {
+				add(fmt.Sprintf("non-admitted-status-%d", o.Status), feat, "Content-Type lines %q, %q (consumes %v, default %q): status %d, expected 415 or 400 (%s)", string(c.CT), string(c.CT2), c.Consumes, c.Default, o.Status, o.Err)
+			}
+			return fs
+		}
+		for _, t := range o.Consumers {
+			ok1 := e.admit != "" && (t == e.mt || (e.consumer == "" && wildcardKeyMatches(t, e.mt)))
+			ok2 := e2.admit != "" && (t == e2.mt || (e2.consumer == "" && wildcardKeyMatches(t, e2.mt)))
+			if !e.hasBody || (!ok1 && !ok2) {
+				add("wrong-consumer", "two-content-type-lines"+e.extraFeature(c), "consumer %q ran for Content-Type lines %q, %q (body=%v)", t, string(c.CT), string(c.CT2), e.hasBody)
+				break
+			}
+		}
+		return fs
+	}
+	if c.FormParam && (e.verdict == "skip" || (e.verdict == "accept" && e.mt != urlencoded)) {
+		// a formData operation: the parameter binder has its own say on the request's type (either form type, whatever
+		// the request carries), and a multipart body needs a boundary: only 'no foreign consumer' is judged
+		for _, t := range o.Consumers {
+			if !e.hasBody || (t != e.mt && !wildcardKeyMatches(t, e.mt)) {
+				add("wrong-consumer", e.verdict+e.extraFeature(c), "consumer %q ran for a formData operation (request type %q, body=%v)", t, e.mt, e.hasBody)
+				break
+			}
+		}
+		return fs
+	}
 	switch e.verdict {
 	case "skip":
 		feat := e.kind.String()
@@ -839,8 +933,8 @@ func judgeEntry(c *Case, e *expectation, o *observation) []finding {
 		default:
 			switch {
 			case len(o.Consumers) == 1 && o.Consumers[0] == e.consumer:
-			case !ran && c.NoBodyParam:
-				// nothing asks for the body of an operation without body parameter
+			case !ran && (c.NoBodyParam || c.FormParam):
+				// nothing asks for the body of an operation without body parameter; a form is not decoded by a consumer
 			case !ran:
 				add("admitted-not-consumed", feat, "handler ran (status %d) but no consumer decoded the body of admitted type %q", o.Status, e.mt)
 			case len(o.Consumers) > 1 && allEqual(o.Consumers, e.consumer):
@@ -949,7 +1043,10 @@ func judge(c *Case, e *expectation, o1, o2 *observation) []finding {
 		}
 	}
 	// agreement of the two entry points
-	if o1.Transport == "" && o2.Transport == "" && !o1.NoRoute && !o2.NoRoute && o1.Panic == "" && o2.Panic == "" {
+	// (a formData operation: the reflective binder refuses what is no form, a generated binder need not: agreement is
+	// judged where the gate alone decides - refusals, and admitted urlencoded bodies)
+	formUnjudged := c.FormParam && !(e.verdict == "refuse415" || e.verdict == "refuse400" || (e.verdict == "accept" && e.mt == urlencoded))
+	if !formUnjudged && o1.Transport == "" && o2.Transport == "" && !o1.NoRoute && !o2.NoRoute && o1.Panic == "" && o2.Panic == "" {
 		feat := e.verdict + e.extraFeature(c)
 		if e.verdict == "accept" || e.verdict == "noreg" {
 			feat = e.admitFeature(c)
@@ -957,7 +1054,7 @@ func judge(c *Case, e *expectation, o1, o2 *observation) []finding {
 		c1, c2 := outcomeClass(o1), outcomeClass(o2)
 		if c1 != c2 {
 			out = append(out, finding{"entry-points-disagree", feat, fmt.Sprintf("untyped pipeline: %s (%s); BindValidRequest: %s (%s)", c1, o1.Err, c2, o2.Err)})
-		} else if c1 == "accepted" && e.hasBody && !c.NoBodyParam {
+		} else if c1 == "accepted" && e.hasBody && !c.NoBodyParam && !c.FormParam {
 			// same consumer picked: what entry 1 ran vs what entry 2 found in route.Consumer
 			t1 := "<none>"
 			if len(o1.Consumers) > 0 {
@@ -980,7 +1077,7 @@ func fingerprint(c *Case, e *expectation) string {
 	if c.HasCT {
 		sp = spelling(string(c.CT))
 	}
-	return strings.Join([]string{c.Shape, strconv.FormatBool(c.Default != ""), strconv.FormatBool(c.Global), e.verdict, e.admit, e.kind.String(), sp, c.BodyMode, c.Method, e.accept, strconv.FormatBool(c.NoBodyParam)}, "|")
+	return strings.Join([]string{c.Shape, strconv.FormatBool(c.Default != ""), strconv.FormatBool(c.Global), e.verdict, e.admit, e.kind.String(), sp, c.BodyMode, c.Method, e.accept, strconv.FormatBool(c.NoBodyParam), strconv.FormatBool(c.FormParam), strconv.FormatBool(len(c.SpecConsumes) > 0), strconv.FormatBool(c.HasCT2)}, "|")
 }
 
 func shapeOf(consumes []string) string {
@@ -1032,6 +1129,15 @@ func evalOn(m *mon.M, e *env, opIdx int, c *Case) ([]finding, *observation, *obs
 	if c.NoBodyParam {
 		m.Class("operation-without-body-parameter:" + ex.verdict)
 	}
+	if c.FormParam {
+		m.Class("formdata-operation:" + ex.verdict)
+	}
+	if len(c.SpecConsumes) > 0 {
+		m.Class("spec-level-list-next-to-the-operation's:" + ex.verdict)
+	}
+	if c.HasCT && c.HasCT2 {
+		m.Class("second-content-type-line:" + ex.verdict)
+	}
 	if ex.accept != "absent" {
 		m.Class("expect:" + ex.verdict + "/accept-" + ex.accept)
 	}
@@ -1056,7 +1162,7 @@ type sample struct {
 
 // runCase executes one case in isolation (its own description with the single operation) and reports.
 func runCase(m *mon.M, c *Case) int {
-	e, err := buildEnv([]opSpec{{consumes: c.Consumes, noParam: c.NoBodyParam}}, c.Global, c.Default, c.Registered)
+	e, err := buildEnv([]opSpec{{consumes: c.Consumes, noParam: c.NoBodyParam, form: c.FormParam}}, c.Global, c.Default, c.Registered, c.SpecConsumes...)
 	if err != nil {
 		m.Class("env-build-failed")
 		return 0
